@@ -242,6 +242,56 @@ def run_episode_isolation(case: Dict, res: CaseResult):
     del old_game
 
 
+def run_folder_episode(case: Dict, res: CaseResult):
+    """Episode-scheduled scenario folder: episode k of a used environment (k may lie beyond one lap of the schedule) vs
+    a fresh environment built from the composed scenario of episode k obtained from a NEW scheduler."""
+    from primaite.session.episode_schedule import build_scheduler
+
+    from ..envdrive import _resolve
+
+    meta = None
+    if case["src"] == "genfolder":
+        path, meta = case_cfg(case)
+    else:
+        path = _resolve(case["path"])
+    s = case["seed"]
+    A = case["ops"]
+    entropy.reset()
+    try:
+        env = build_env(path)
+    except Exception:
+        res.label("build_failed")
+        return
+    errh = drive(env, case["history"], meta, None, "history")
+    rec1: List[Dict] = []
+    entropy.reset()
+    err1 = drive(env, [["reset", s]] + A, meta, rec1, "used")
+    k = env.episode_counter
+    cfg_k = build_scheduler(path)(k)
+    entropy.reset()
+    try:
+        ref = build_env(cfg_k)
+    except Exception as e:
+        res.label("reference_build_failed")
+        return
+    rec2: List[Dict] = []
+    entropy.reset()
+    err2 = drive(ref, [["reset", s]] + A, meta, rec2, "fresh")
+    if (err1 is None) != (err2 is None) or (err1 and err2 and err1[2] != err2[2]):
+        res.violate(f"episode-leak:scheduled:exception:{(err1 or err2)[2]}", f"episode {k}: used env {err1} vs fresh env of that episode's scenario {err2}")
+    else:
+        d = first_difference(rec1, rec2)
+        if d:
+            res.violate(f"episode-leak:scheduled:{d[0]}", f"episode {k} of the used scheduled environment vs a fresh environment built from that episode's scenario: {d[1]}")
+    n_sched = len(build_scheduler(path).schedule)
+    if case["src"] == "genfolder":
+        import shutil
+
+        shutil.rmtree(path, ignore_errors=True)
+    res.label("mode:folder_episode", "src:" + case["src"], f"lap:{min(k // max(n_sched, 1), 3)}", "history_raised" if errh else "history_ok")
+    res.nontrivial = k >= n_sched  # beyond one lap of the schedule
+
+
 def run_reset_vs_construct(case: Dict, res: CaseResult):
     cfg, meta = case_cfg(case)
     s = case["seed"]
@@ -429,6 +479,8 @@ def run_case(case: Dict) -> CaseResult:
         run_episode_isolation(case, res)
     elif mode == "reset_vs_construct":
         run_reset_vs_construct(case, res)
+    elif mode == "folder_episode":
+        run_folder_episode(case, res)
     else:
         run_instances(case, res)
     return res
@@ -447,6 +499,39 @@ def episode_case(draw, shipped: Optional[List[str]] = None):
     c["seed"] = draw(st.integers(0, 500))
     c["mode"] = "episode"
     return c
+
+
+@st.composite
+def folder_episode_case(draw):
+    from ..envdrive import SCHEDULE_FOLDERS
+
+    path = draw(st.sampled_from([f for f in SCHEDULE_FOLDERS if "uc7" not in f]))
+
+    def mk(t):
+        k, a = t
+        return ["reset", None] if k < 4 else ["step", a]
+
+    hist = draw(st.lists(st.tuples(st.integers(0, 9), st.integers(0, 10 ** 6)).map(mk), min_size=3, max_size=24))
+    A = [["step", draw(st.integers(0, 10 ** 6))] for _ in range(draw(st.integers(1, 8)))]
+    return {"src": "folder", "path": path, "history": hist, "ops": A, "seed": draw(st.integers(0, 500)), "mode": "folder_episode"}
+
+
+@st.composite
+def genfolder_episode_case(draw):
+    """A generated scenario (router/firewall families included) written as an episode-scheduled folder."""
+    c = draw(gen_case_strategy(max_ops=8))
+    c["spec"]["agents"]["green"] = draw(st.integers(1, 2))
+
+    def mk(t):
+        k, a, cat, j = t
+        return ["reset", None] if k < 4 else (["cat", cat, j] if k < 8 else ["step", a])
+
+    from ..envdrive import CATS
+
+    hist = draw(st.lists(st.tuples(st.integers(0, 9), st.integers(0, 10 ** 6), st.sampled_from(CATS), st.integers(0, 200)).map(mk),
+                         min_size=3, max_size=20))
+    return {"src": "genfolder", "spec": c["spec"], "n_variants": draw(st.integers(1, 3)), "history": hist,
+            "ops": [o for o in c["ops"] if o[0] != "reset"], "seed": draw(st.integers(0, 500)), "mode": "folder_episode"}
 
 
 @st.composite
@@ -487,6 +572,8 @@ def worker(ctx: Ctx):
     paths = [p for p in usable_shipped() if "uc7" not in p]
     hyp_run(ctx, episode_case(paths), run_case, 3 if q else 100, sub=1)
     hyp_run(ctx, rvc_case(), run_case, 6 if q else 200, sub=2)
+    hyp_run(ctx, folder_episode_case(), run_case, 3 if q else 100, sub=4)
+    hyp_run(ctx, genfolder_episode_case(), run_case, 4 if q else 150, sub=5)
     hyp_run(ctx, instances_case(same_nmne="C04-nmne-config-global" in ctx.excl), run_case, 6 if q else 250, sub=3)
     # reset vs construction with the constructed environment being the FIRST one of a fresh interpreter
     from .c03 import collect
